@@ -113,6 +113,9 @@ def rand_dispersive(rng):
     do = int(rng.integers(1, 4))
     trace = [rng.normal() * 10 ** (2 * (k - 1)) if k > 1 else rng.normal() * 2 for k in range(to, 0, -1)] \
         + [rng.normal() * 1e-4]
+    if to == 2 and rng.random() < 0.4:
+        # an almost straight trace: a fitted calibration polynomial whose quadratic term is tiny but not zero
+        trace[0] = float(rng.choice([-1, 1])) * float(10 ** rng.uniform(-11, -3))
     lam0 = rng.uniform(4e-7, 1e-6)
     d1 = rng.uniform(1e-4, 5e-4) * rng.choice([-1, 1])
     disp = [rng.normal() * 1e-2 * abs(d1) * 10 ** (2 * (k - 2)) for k in range(do, 1, -1)] + [d1, lam0]
